@@ -35,13 +35,15 @@ Print Assumptions c07_readback.
 (* the hardware conversions behind "reads back as the same value", exactly, on bit patterns:
    a float32 body is stored as widen32 of its pattern, which is injective on non-signalling
    patterns and narrows back to the pattern set (a signalling NaN comes back quiet, payload
-   kept); an integer body read as a float is exact below 2^53 and converts back to itself.
+   kept — on amd64; which NaN a float32 NaN widens to is platform-defined and stays an oracle);
+   an integer body read as a float is exact below 2^53 and converts back to itself.
    Only strconv's float text, protojson and int64(float64) outside the int64 range stay oracles. *)
-Theorem c07_conversions : forall oor ff pf fp,
-  let o := go_oracles oor ff pf fp in
-  (forall b, 0 <= b < 2 ^ 32 ->
+Theorem c07_conversions : forall nw oor ff pf fp,
+  let o := go_oracles nw oor ff pf fp in
+  (forall b, 0 <= b < 2 ^ 32 -> is_nan32 b = false ->
      body_to_float o (set_body o (GF32 b)) = Some (widen32 b) /\ 0 <= widen32 b < 2 ^ 64 /\
-     narrow64 (widen32 b) = (if is_snan32 b then b + 2 ^ 22 else b)) /\
+     narrow64 (widen32 b) = b) /\
+  (forall b, 0 <= b < 2 ^ 32 -> narrow64 (widen32 b) = (if is_snan32 b then b + 2 ^ 22 else b)) /\
   (forall a b, 0 <= a < 2 ^ 32 -> 0 <= b < 2 ^ 32 -> is_snan32 a = false -> is_snan32 b = false ->
      widen32 a = widen32 b -> a = b) /\
   (forall v, v <> 0 -> Z.abs v < 2 ^ 53 ->
@@ -50,8 +52,12 @@ Theorem c07_conversions : forall oor ff pf fp,
      f64_sign (Float.i2f v) = (if v <? 0 then 1 else 0)) /\
   (forall v, Z.abs v < 2 ^ 53 -> body_to_int o (BFloat (Float.i2f v)) = Some v).
 Proof.
-  intros oor ff pf fp o. split; [|split; [|split]].
-  - intros b Hb. split; [reflexivity|]. split; [exact (widen32_range b Hb)|exact (narrow_widen b Hb)].
+  intros nw oor ff pf fp o. split; [|split; [|split; [|split]]].
+  - intros b Hb Hn. split; [cbn [set_body body_to_float o go_oracles widen]; rewrite Hn; reflexivity|].
+    split; [exact (widen32_range b Hb)|]. rewrite (narrow_widen b Hb).
+    unfold is_snan32. unfold is_nan32 in Hn. destruct (f32_exp b =? 255); [|reflexivity].
+    destruct (f32_man b =? 0); [reflexivity|discriminate].
+  - exact narrow_widen.
   - exact widen32_injective.
   - intros v Hv Ha. destruct (i2f_exact v Hv Ha) as (_ & Hs & _ & Hm). split; [reflexivity|]. split; assumption.
   - intros v Ha. cbn [body_to_int o go_oracles Model.f2i]. rewrite (f2i_i2f v Ha). reflexivity.
